@@ -325,6 +325,14 @@ def _fn_factory():
             letters = "".join(ch.value(eng) for ch in mode.letters)
             desc["mode_example"] = letters
             desc["present"] = {f"{k[0]}:{k[1]}": v for k, v in init.bits.items()}
+            if cm not in (None, "rr", "rf"):
+                # other values of the experimental check_mode are not documented (setup.py: "TODO: document after
+                # experimental period"): only the clause that holds for every mode is asserted - nothing else is touched
+                touched = {c[1] for c in real_calls if c[0] not in ("get_root",)}
+                if not touched <= set(addressed):
+                    raise symx.Violation(f"{op} touched objects that are not addressed: {sorted(touched - set(addressed))}", {"case": desc, "class": "touches unaddressed"})
+                col.count("undocumented_check_mode")
+                break
             if raised != want_raise:
                 raise symx.Violation(f"{op} with mode like '{letters}': raised {raised}, documented outcome {want_raise or 'no error'}", {"case": desc, "class": f"{op} outcome"})
             if mutating_real != mutating_want:
